@@ -1,5 +1,6 @@
 import ScenicModel.Gen.Visibility
 import ScenicModel.Model.Visibility
+import ScenicModel.Model.VisibilityPrune
 import Driver.Util
 /-!
 line protocol for the visibility model (C17); the configuration is the one regenerated from /repo.
@@ -19,6 +20,8 @@ A viewer is `<kind> D px py pz qw qx qy qz ox oy oz c0 s0 c1 s1` (kind `P`oint /
 * `vbound <viewer> tx ty tz`          -> `1`/`0`   membership in the base sphere of `ViewRegion` (generated wrappers)
 * `c2d <P|O|B> D px py pz hc hs ox oy oz c0 s0 tx ty tz` -> `1`/`0`   the model of the 2D fast path
   `Point2D / OrientedPoint2D / Object2D.canSee(<vector>)` (generated 2D configuration; `hc hs` = cos, sin of the heading)
+* `prune pi A B ahead behind n raz*n alt*n` -> `none` | `some k (h0 h1 v0 v1)*k`   the angular pruning of the object branch
+  (`Prune.pruneWindows`: raw `arctan2` / `arcsin` values of the vertices, the two crossing flags, half view angles)
 -/
 namespace Driver.C17
 open Scenic.Vis Driver
@@ -151,6 +154,15 @@ def handle : List String → String
       match k with
       | some k => bit (decide (canSee2D CFG2 k ⟨px, py, pz⟩ ⟨ox, oy, oz⟩ ⟨hc, hs⟩ d ⟨c0, s0⟩ ⟨tx, ty, tz⟩))
       | none => "bad-op"
+    | _ => "bad-op"
+  | "prune" :: rest => match rest.mapM parseRat with
+    | some (pi :: a :: b :: ah :: bh :: n :: xs) =>
+      if n.den = 1 ∧ 0 ≤ n.num ∧ xs.length = 2 * n.num.toNat then
+        match Prune.pruneWindows pi a b (ah != 0) (bh != 0) (xs.take n.num.toNat) (xs.drop n.num.toNat) with
+        | none => "none"
+        | some ws => " ".intercalate (["some", toString ws.length] ++
+            ws.flatMap (fun w => [showRat w.h0, showRat w.h1, showRat w.v0, showRat w.v1]))
+      else "bad-op"
     | _ => "bad-op"
   | _ => "bad-op"
 
